@@ -132,6 +132,8 @@ class Serializable(object):  # pylint: disable=too-few-public-methods
             result = result_func(obj)
         elif hasattr(obj, '_asdict'):
             result = Serializable._json_traverse(obj._asdict(), result_func)
+        elif isinstance(obj, (ipaddress.IPv4Network, ipaddress.IPv6Network)):
+            result = result_func(obj)
         elif isinstance(obj, dict) or attr.has(type(obj)):
             result = OrderedDict([
                 (
